@@ -134,6 +134,7 @@ func (its *DatatypeManager) syncIfNeedPull(data iface.WiredDatatype, sseq uint64
 		}
 	}()
 	if data.NeedPull(sseq) {
+		vhook.At("dm.sync.on-notification", its.ctx.Client.CUID, sseq)
 		its.ctx.L().Infof("need to sync after notification: %s (sseq:%d)", data.GetKey(), sseq)
 		return its.sync(data)
 	}
